@@ -1108,6 +1108,16 @@ def explore(fn, max_paths=200000, timeout_ms=60000, stop_on_cex=True, want_witne
     return res
 
 
+def nested_explore(fn, **kw):
+    """explore(fn) from inside a running path (the outer path is suspended and resumed afterwards)."""
+    global _CUR
+    saved = _CUR
+    try:
+        return explore(fn, **kw)
+    finally:
+        _CUR = saved
+
+
 def _jsonable(x):
     if x is None or isinstance(x, (str, bool, int, float)):
         return x
